@@ -1288,7 +1288,7 @@ ALL_ENTRIES = ['Obs', 'mixed', 'CObs', 'cmixed']
 
 
 def plan(tier):
-    m = 1 if tier == 'quick' else 40
+    m = 1 if tier == 'quick' else 25
     p = []
     for nfac in (2, 3, 4):
         for ent in ALL_ENTRIES:
